@@ -26,12 +26,37 @@ const (
 
 // Holds the current state of the parsing process.
 type Parser struct {
-	source        string       // Regex source
-	lexer         *lexer.Lexer // lexer which outputs a stream of tokens
-	lookahead     *token.Token // next token used for predicting productions
-	nextLookahead *token.Token // second next token used for predicting productions
-	errors        diagnostic.DiagnosticList
-	mode          mode
+	source          string       // Regex source
+	lexer           *lexer.Lexer // lexer which outputs a stream of tokens
+	lookahead       *token.Token // next token used for predicting productions
+	nextLookahead   *token.Token // second next token used for predicting productions
+	errors          diagnostic.DiagnosticList
+	mode            mode
+	nesting         int  // how deep the group being parsed is nested
+	nestingExceeded bool // the nesting limit has been reported
+}
+
+// The parser is recursive, every level of nesting takes up stack space.
+// A regex that nests deeper than this is rejected instead of overflowing the stack.
+const maxNesting = 1000
+
+// Called on entry to a production through which nested constructs recurse.
+// Reports an error and returns false when the limit is exceeded.
+func (p *Parser) enterNesting() bool {
+	p.nesting++
+	if p.nesting <= maxNesting {
+		return true
+	}
+
+	if !p.nestingExceeded {
+		p.errorMessage("the regex is nested too deeply")
+		p.nestingExceeded = true
+	}
+	return false
+}
+
+func (p *Parser) leaveNesting() {
+	p.nesting--
 }
 
 // Instantiate a new parser.
@@ -92,6 +117,9 @@ func (p *Parser) errorToken(err *token.Token) {
 
 // Same as [errorMessage] but let's you pass a Span.
 func (p *Parser) errorMessageSpan(message string, span *position.Span) {
+	if p.nestingExceeded {
+		return
+	}
 	p.errors.AddFailure(
 		message,
 		position.NewLocation("regex", span),
@@ -749,6 +777,12 @@ func (p *Parser) primaryCharClassElement() ast.CharClassElementNode {
 
 // group = "(" ["?" (":" | (["P"] "<" ALPHA_CHAR* ">")] union ")"
 func (p *Parser) group() ast.PrimaryRegexNode {
+	defer p.leaveNesting()
+	if !p.enterNesting() {
+		t := p.advance()
+		return ast.NewInvalidNode(t.Span(), t)
+	}
+
 	lparen := p.advance()
 	var nonCapturing, onlyFlags bool
 	var name string
